@@ -25,6 +25,8 @@ def check(prog, ctx):
     ctx.rule('C16.c', 'plain spherical coordinates are (r sin(theta) cos(phi), r sin(theta) sin(phi), r cos(theta))', 1)
     ctx.rule('C16.d', 'axis-relative spherical coordinates: |v|^2 = r^2, v.e = r cos(theta), dv/dphi . (e x v) = r^2 sin^2(theta) modulo '
              '{e.e=1, aux^2=1-e3^2, ctheta^2+stheta^2=1, cphi^2+sphi^2=1}', 3)
+    ctx.rule('C16.h', 'conditioning of the general branch: the length of the axis part perpendicular to z and the sine of the polar angle are not formed as '
+             'sqrt(1 - u^2) of a quantity u that reaches +-1 inside the domain (catastrophic cancellation near axes +-z / angles 0, pi)', 1)
     ctx.rule('C16.e', 'degenerate axes: every real zero of the divisor of the general branch within e3 in [-1,1] is excluded by the guards, and '
              'each excluded case returns a vector with the same three identities for that axis', 2)
     ctx.rule('C16.f', 'Angle is acos(v1.v2/(|v1||v2|))', 1)
@@ -213,17 +215,30 @@ def spherical(prog, ctx):
     roots = [t for t in v.atoms(sp.Pow) if t.exp == sp.Rational(1, 2) or t.exp == -sp.Rational(1, 2)]
     aux_rad = None
     sub = {}
+    aux_written = None
+    cancelling = []
     for t in roots:
         base = t.base
-        if base.has(e[2]) and not base.has(theta):
-            aux_rad = base
+        if any(base.has(x_) for x_ in e) and not base.has(theta):
+            aux_written = base
+            # as a function of e3 on the unit sphere (e1^2 + e2^2 = 1 - e3^2)
+            aux_rad = sp.expand(sp.expand(base).subs(e[0] ** 2, 1 - e[1] ** 2 - e[2] ** 2))
             sub[sqrt(base)] = AUX
+            if is_zero(base - (1 - e[2] ** 2)):
+                cancelling.append('sqrt(1 - e3^2) for the length of the axis part perpendicular to z (e3 -> +-1 for axes near +-z)')
         elif is_zero(base - (1 - cos(theta) ** 2)):
             sub[sqrt(base)] = ST
+            cancelling.append('sqrt(1 - cos(theta)^2) for sin(theta) (theta -> 0, pi)')
     if aux_rad is None:
         ctx.undecided('C16.d', 'Spherical_Coordinates:axis', ax, 'no auxiliary sqrt(...) in e found: %s' % roots)
         return
-    sub_after = [(sqrt(aux_rad), AUX), (1 / sqrt(aux_rad), 1 / AUX), (sqrt(1 - cos(theta) ** 2), ST),
+    ctx.decide('C16.h', 'Spherical_Coordinates:axis:no-cancellation', ax, not cancelling,
+               'no quantity of the general branch is formed as sqrt(1 - u^2) with u reaching +-1 inside the domain',
+               'the general branch forms %s: the subtraction cancels and the relative error grows like eps/(1-u^2), so norm and polar angle of the result are wrong for '
+               'axes near (not at) +-z / angles near 0, pi' % '; '.join(cancelling),
+               witness={'reproducer': 'Spherical_Coordinates(1, pi/4, 2, axis (0.03,-0.04,1e6)) has norm 1.031 and polar angle 0.815 instead of 0.785; '
+                                      'Spherical_Coordinates(1, 1e-8, phi, axis (1,0,0)) is exactly (1,0,0) for every phi'} if cancelling else None)
+    sub_after = [(sp.Abs(sin(theta)), ST), (sqrt(aux_written), AUX), (1 / sqrt(aux_written), 1 / AUX), (sqrt(aux_rad), AUX), (1 / sqrt(aux_rad), 1 / AUX), (sqrt(1 - cos(theta) ** 2), ST),
                  (cos(theta), CT), (cos(phi), CP), (sin(phi), SP_), (sin(theta), ST)]
     ev = sp.Matrix(e)
     res = frame_identities(v, ev, r, theta, phi, [e[0] ** 2 + e[1] ** 2 + e[2] ** 2 - 1, AUX ** 2 - sp.expand(aux_rad)], list(e) + [AUX], sub_after)
